@@ -164,9 +164,9 @@ func runCheck(id, tier, repo, verif string, writeEvidence bool) int {
 	seed := int64(0)
 	fmt.Sscan(os.Getenv("VERIF_SEED"), &seed)
 	P, err := loadProgram(repo, verif)
-	cr := &checkRun{P: P, ps: ps, tier: tier, seed: seed, start: start, timeout: 10000}
+	cr := &checkRun{P: P, ps: ps, tier: tier, seed: seed, start: start, timeout: 20000}
 	if tier == "thorough" {
-		cr.timeout = 30000
+		cr.timeout = 60000
 	}
 	replayDir := filepath.Join(verif, "replay", id)
 	os.RemoveAll(replayDir)
